@@ -133,12 +133,36 @@ def _disk_case(desc, ctx):
     ctx.cls("interior:" + ("none" if not interior else "some"))
     if len(interior) >= 5 and (nb % 4 != 0 or chords):
         ctx.nontrivial(stable_hash([len(V), F, mode, cotan, desc["corners"]]))
-    ok, m = ctx.call("build", build.surface, V, F, monitor="border")
+    if desc["seed"] % 5 == 2:
+        # whole-number vertex coordinates of some size (a scanned / voxel-derived mesh): stored as Python ints or as an integer array
+        fac = rng.choice([300.0, 1.0e5, 3.0e6])
+        Vr = np.round(V * fac)
+
+        def _areas(W):
+            return np.array([np.linalg.norm(np.cross(W[f[1]] - W[f[0]], W[f[2]] - W[f[0]])) for f in F])
+        if np.any(_areas(Vr) < 0.9 * _areas(V * fac)):
+            fac = 3.0e6  # rounding to whole numbers must not squash a triangle: use the finest grid
+            Vr = np.round(V * fac)
+        V = Vr
+        ctx.cls("coordinates:whole_numbers")
+        a2 = topo.analyse(len(V), F)
+        import mouette as _M
+        if rng.random() < 0.5:
+            ok, m = ctx.call("build", build.surface, [[int(x) for x in p] for p in V], F, monitor="border")
+        else:
+            ok, m = ctx.call("from_arrays", _M.mesh.from_arrays, np.asarray(V).astype(rng.choice(["int64", "int32"]) if np.abs(V).max() < 2e9 else "int64"), F=np.array(F), monitor="border")
+    else:
+        ok, m = ctx.call("build", build.surface, V, F, monitor="border")
     kwargs = {"save_on_corners": desc["corners"]}
     side_of = None
     if mode.startswith("custom"):
         bv = [int(v) for v in m.boundary_vertices]
         poly, sides = _convex_polygon(rng, mode, nb)
+        int_form = None
+        if mode == "custom" and nb <= 24 and rng.random() < 0.5:
+            # whole-number targets (pixel coordinates in [0, 255]), later handed over as uint8 / int64 / float arrays
+            poly = np.round(127.0 + 120.0 * np.asarray(poly, float) / np.abs(np.asarray(poly, float)).max())
+            int_form = rng.choice(["uint8", "int64", "float64"])
         # harness self-check: the target must be a convex polygon traversed once (strictly convex unless collinear runs are intended)
         Pq = np.asarray(poly, float)
         crs = [float((Pq[(i + 1) % nb] - Pq[i])[0] * (Pq[(i + 2) % nb] - Pq[(i + 1) % nb])[1] - (Pq[(i + 1) % nb] - Pq[i])[1] * (Pq[(i + 2) % nb] - Pq[(i + 1) % nb])[0])
@@ -149,6 +173,9 @@ def _disk_case(desc, ctx):
             return
         rank = {v: i for i, v in enumerate(loop)}
         kwargs["custom_boundary"] = np.array([poly[rank[v]] for v in bv])
+        if int_form is not None:
+            kwargs["custom_boundary"] = kwargs["custom_boundary"].astype(int_form)
+            ctx.cls("custom_boundary:whole_numbers_as_" + int_form)
         target = {v: poly[rank[v]] for v in loop}
         if sides is not None:
             side_of = {v: sides[rank[v]] for v in loop}
